@@ -445,7 +445,7 @@ def locate_droplets(
 
     # determine actual threshold
     if threshold == "extrema" or threshold == "auto":
-        threshold = float(phase_field.data.min() + phase_field.data.max()) / 2
+        threshold = (float(phase_field.data.min()) + float(phase_field.data.max())) / 2
     elif threshold == "mean":
         threshold = float(phase_field.data.mean())
     elif threshold == "otsu":
